@@ -3,5 +3,6 @@
    Value (per-object invariants: an accepted object is written with its last content), Order (explicit order
    invocation < BatchWrite < commit < BatchWriteDone for an accepted call), Progress (no stuck state,
    acceptance before Stop), Finish (every reachable state has a continuation in which all calls return),
-   Witness (pinned defects D08a/D08b, regressions). *)
-From Verif.C08_Batch Require Export Model Base Safety Life Complete Value Order Progress Finish Witness.
+   Witness (pinned defects D08a/D08b, regressions), FaultModel + Fault (store faults: a refused Commit / Batched is
+   terminal, no BatchWriteDone without a successful commit; the batch timer). *)
+From Verif.C08_Batch Require Export Model Base Safety Life Complete Value Order Progress Finish Witness FaultModel Fault.
